@@ -5,7 +5,8 @@ from harness import core, gen, common
 
 ID = 'C09'
 LEAN_TARGETS = ['Props.C09']
-OBLIGATIONS = ['C09.vector_product_split', 'C09.project_plus_remainder', 'C09.one_plus_unit_vector_not_versor']
+OBLIGATIONS = ['C09.vector_product_split', 'C09.involuted_product_split', 'C09.vector_blade_wedge', 'C09.vector_blade_inner', 'C09.blade_vector_inner',
+               'C09.project_plus_remainder', 'C09.one_plus_unit_vector_not_versor']
 PARTIAL = ['factorise / basis reassembly, idempotence-containment-orthogonality of project and the grade formulas of join and meet have no Lean theorem: '
            'decided by evaluation on the implementation with integer spanning vectors (conditioning-scaled tolerance)']
 RULE = ("non-degenerate signatures with n<=5 (n<=6 thorough), every k, spanning vectors with small integer coordinates (well conditioned: Gram determinant of the blade "
